@@ -1258,11 +1258,10 @@ where
             resent += 1;
             true // Keep in store
         });
-        // Re-sent packets are in-flight exchanges of this connection (Receive Maximum)
+        // The re-sent packets are exactly the in-flight exchanges of this connection
+        // (Receive Maximum); this includes packets queued while connecting
         if self.publish_send_max.is_some() {
-            self.publish_send_count = self
-                .publish_send_count
-                .saturating_add(u16::try_from(resent).unwrap_or(u16::MAX));
+            self.publish_send_count = u16::try_from(resent).unwrap_or(u16::MAX);
         }
 
         events
